@@ -112,15 +112,21 @@ def addHalf (t : Dy) : Dy :=
   if 0 ≤ t.e then Dy.norm (t.m * pow2 (t.e + 1) + 1) (-1)
   else Dy.norm (t.m + pow2 (-t.e - 1)) t.e
 
-/-- One component of `bigComplexToRNSScalar(ring, scale, x)`:
-    `r := x*scale` (rounded to `max(prec x, prec scale)` bits), `r ± 0.5` (rounded again),
-    truncated.  `xprec` is the precision of `x` (the encoding precision). -/
-def rnsConst (xprec : Nat) (x : SD) (scale : Dy) : Int :=
+/-- Fixed-point conversion as lattigo writes it with `big.Float`s of working precision `P`:
+    `r := x*scale` (rounded to `P` bits), `r ± 0.5` (rounded again), truncated towards zero.
+    Shared by `bigComplexToRNSScalar` (`P = max(prec x, 128)`), `ComplexArbitraryToFixedPointCRT`
+    (same `P`), `BigFloatToFixedPointCRT` (`P = values[0].Prec()`) and, with `P = 53`, the float64
+    path `SingleFloat64ToFixedPointCRT`. -/
+def fixedPoint (P : Nat) (x : SD) (scale : Dy) : Int :=
   if x.mag.m = 0 then 0 else
-    let P := Nat.max xprec scalePrec
     let t := Dy.mul P x.mag scale
     let u := let h := addHalf t; roundRat P h.m 1 h.e
     if x.neg then - (u.toNat : Int) else (u.toNat : Int)
+
+/-- One component of `bigComplexToRNSScalar(ring, scale, x)`; `xprec` is the precision of `x`
+    (the encoding precision), the product is rounded to `max(xprec, 128)` bits. -/
+def rnsConst (xprec : Nat) (x : SD) (scale : Dy) : Int :=
+  fixedPoint (Nat.max xprec scalePrec) x scale
 
 /-! ## parameters -/
 
